@@ -9,6 +9,7 @@ type pProfile struct {
 	kinds     []string
 	maxOps    int
 	maxBuf    int // largest BufferSize
+	minBuf    int // smallest BufferSize (0: 1)
 	stream    int // length of the underlying data stream
 	wWrite    int
 	wReadFrom int
@@ -37,9 +38,12 @@ var profGeneral = pProfile{kinds: allKinds, maxOps: 40, maxBuf: 96, stream: 400,
 // wraps within a short script.
 func genPCfg(r *rng, kind string, pf pProfile) pcfg {
 	c := pcfg{kind: kind, f: map[string]int{}}
-	bs := r.rangeIn(1, pf.maxBuf)
-	if r.chance(15) {
+	bs := r.rangeIn(max(1, pf.minBuf), pf.maxBuf)
+	if r.chance(15) && pf.minBuf == 0 {
 		bs = r.rangeIn(1, 12)
+	}
+	if pf.wReset > 0 && !pf.wrap && !pf.runs && r.chance(2) {
+		bs = r.rangeIn(1025, 1200) // larger than grow()'s initial 1 KiB allocation (capacity boundary of Reset)
 	}
 	c.f["BufferSize"] = bs
 	c.f["ShrinkSize"] = r.rangeIn(0, bs-1)
@@ -203,6 +207,9 @@ func genPScript(r *rng, pf pProfile, id string, cnt counters, emit func(line, ou
 		return out
 	}
 	var stream []byte
+	if e.bc.BufferSize > 1024 && e.bc.BufferSize < 4096 && pf.stream < 3000 {
+		pf.stream = 3000
+	}
 	if pf.runs {
 		stream = make([]byte, pf.stream)
 		c := byte(r.pick(0, 0, 'a', 0xff, 1))
@@ -249,6 +256,37 @@ func genPScript(r *rng, pf pProfile, id string, cnt counters, emit func(line, ou
 	}
 	total := pf.wWrite + pf.wReadFrom + pf.wParse + pf.wParseNil + pf.wShrink + pf.wReset + pf.wProbe + pf.wCfg
 	nops := r.rangeIn(3, pf.maxOps)
+	if pf.wReset > 0 && (r.chance(6) || e.bc.BufferSize > 1024) {
+		// directed: Reset(data) at the capacity boundary of the parser's own buffer. The
+		// buffer's capacity is len+7 after a copying Reset and 1 KiB after a first small
+		// Write; data that is 1..7 bytes longer than what fits with the 7-byte margin must
+		// be given a new buffer, otherwise the next Parse reads behind the capacity.
+		drain := func() {
+			fl := r.pick(0, 0, 1)
+			if r.chance(30) {
+				do("parsenil")
+			}
+			for g := 0; g < 6 && !e.dead && e.unparsed() > 0; g++ {
+				do(fmt.Sprintf("parse %d", fl))
+			}
+		}
+		if e.bc.BufferSize > 1024 {
+			do("write " + hx(next(r.rangeIn(1, 8))))
+			n := r.rangeIn(1010, 1026)
+			do(fmt.Sprintf("reset %s %d", hx(next(n)), r.pick(0, 3, 6, 7)))
+			drain()
+		} else if bs >= 4 {
+			n1 := r.rangeIn(1, bs-1)
+			do(fmt.Sprintf("reset %s %d", hx(next(n1)), r.pick(0, 3, 6)))
+			if r.chance(50) {
+				drain()
+			}
+			n2 := min(bs, n1+r.rangeIn(1, 8))
+			do(fmt.Sprintf("reset %s %d", hx(next(n2)), r.pick(0, 3, 6)))
+			drain()
+		}
+		cnt.inc("p.directed.resetcap")
+	}
 	for k := 0; k < nops && !e.dead; k++ {
 		x := r.intn(total)
 		if r.chance(6) {
